@@ -14,7 +14,7 @@ pub fn stub_tp(v: u32) -> u32 {
     uf_tp::call(v)
 }
 
-//@ harness name=sm4_leaf_t prop=C06,C20 tier=quick bits=32 est=15 desc="L: crate::t(x) == oracle T(x) = L(tau(x)) and crate::t_prime(x) == oracle T'(x) for all 2^32 x (S-box table vs oracle table, rotations)"
+//@ harness name=sm4_leaf_t prop=C06,C20 tier=quick bits=32 est=10 desc="L: crate::t(x) == oracle T(x) = L(tau(x)) and crate::t_prime(x) == oracle T'(x) for all 2^32 x (S-box table vs oracle table, rotations)"
 verif_harness! {
     name: sm4_leaf_t,
     bytes: 4,
@@ -26,7 +26,7 @@ verif_harness! {
     }
 }
 
-//@ harness name=sm4_wire_enc prop=C06 tier=quick bits=256 stub=1 est=30 desc="W: Sm4::new(key).encrypt_block(b) == oracle key schedule + 32 rounds, all keys, all blocks, t/t_prime uninterpreted (shared with the oracle)"
+//@ harness name=sm4_wire_enc prop=C06 tier=quick bits=256 stub=1 est=45 desc="W: Sm4::new(key).encrypt_block(b) == oracle key schedule + 32 rounds, all keys, all blocks, t/t_prime uninterpreted (shared with the oracle)"
 verif_harness! {
     name: sm4_wire_enc,
     bytes: 32,
